@@ -67,7 +67,7 @@ func (m *Mutex) Unlock() {
 		return
 	}
 	simrt.RaceRelease(unsafe.Pointer(m))
-	simrt.Trap(unlockOp{m}, false)
+	simrt.Trap(unlockOp{m}, simrt.PreemptUnlock())
 }
 
 type tryOp struct {
@@ -154,7 +154,7 @@ func (m *RWMutex) Unlock() {
 		return
 	}
 	simrt.RaceRelease(unsafe.Pointer(m))
-	simrt.Trap(rwOp{m, 1}, false)
+	simrt.Trap(rwOp{m, 1}, simrt.PreemptUnlock())
 }
 
 //go:norace
@@ -174,7 +174,7 @@ func (m *RWMutex) RUnlock() {
 		return
 	}
 	simrt.RaceRelease(unsafe.Pointer(m))
-	simrt.Trap(rwOp{m, 3}, false)
+	simrt.Trap(rwOp{m, 3}, simrt.PreemptUnlock())
 }
 
 func (m *RWMutex) RLocker() Locker { return rlocker{m} }
